@@ -329,6 +329,10 @@ pub struct UpModel {
     pub label: &'static str,
     /// further structural features (counters)
     pub features: Vec<&'static str>,
+    /// transient classes: what the entry would look like if the message were cached after all (as a
+    /// negative entry with any / no SOA, or as a positive entry) — to attribute a `transient_cached`
+    /// violation to the message that was cached
+    pub would_be: Vec<View>,
 }
 
 fn slot_of(slot: &'static str, r: &PRec) -> Slot {
@@ -364,16 +368,28 @@ fn negative_view(m: &PMsg, soa: Option<&PRec>) -> View {
             slots.push(slot_of("glue", g));
         }
     }
-    View { negative: true, head: if m.rcode == RC_NXDOMAIN { 1 } else { 0 }, slots }
+    // head as `real::observe` reports it: 0 NOERROR, 1 NXDOMAIN, 99 any other response code
+    let head = match m.rcode {
+        RC_NOERROR => 0,
+        RC_NXDOMAIN => 1,
+        _ => 99,
+    };
+    View { negative: true, head, slots }
 }
 
 pub fn classify(wire: &[u8], qname: &Labels, qtype: u16) -> UpModel {
-    let t = |label| UpModel { class: UpClass::Transient, label, features: vec![] };
-    let o = |label| UpModel { class: UpClass::Opaque, label, features: vec![] };
     let m = match parse(wire) {
         Ok(m) => m,
-        Err(_) => return t("undecodable"),
+        Err(_) => return UpModel { class: UpClass::Transient, label: "undecodable", features: vec![], would_be: vec![] },
     };
+    let t = |label| {
+        let mut would_be = vec![positive_view(&m), negative_view(&m, None)];
+        for s in m.sections[1].iter().filter(|r| r.rtype == T_SOA) {
+            would_be.push(negative_view(&m, Some(s)));
+        }
+        UpModel { class: UpClass::Transient, label, features: vec![], would_be }
+    };
+    let o = |label| UpModel { class: UpClass::Opaque, label, features: vec![], would_be: vec![] };
     if !m.qr {
         return t("not_a_response");
     }
@@ -424,7 +440,7 @@ pub fn classify(wire: &[u8], qname: &Labels, qtype: u16) -> UpModel {
         if m.sections[1].iter().any(|r| r.rtype == T_SOA) {
             features.push("positive_with_soa");
         }
-        return UpModel { class: UpClass::Stored(vec![positive_view(&m)]), label, features };
+        return UpModel { class: UpClass::Stored(vec![positive_view(&m)]), label, features, would_be: vec![] };
     }
     // ---- empty answer section
     let fq = rw::fold(qname);
@@ -482,7 +498,7 @@ pub fn classify(wire: &[u8], qname: &Labels, qtype: u16) -> UpModel {
     if m.sections[2].iter().any(|r| r.rtype == T_SOA) && soas.is_empty() {
         features.push("soa_only_in_additional");
     }
-    UpModel { class: UpClass::Stored(cands), label, features }
+    UpModel { class: UpClass::Stored(cands), label, features, would_be: vec![] }
 }
 
 impl PMsg {
